@@ -61,12 +61,12 @@ Theorem C11_async_defers_activation :
 Proof. exact construct_async. Qed.
 Print Assumptions C11_async_defers_activation.
 
-(* pinned tree, rtc=False: re-activation and resume pop from an empty deque (deviation D3) *)
-Theorem C11_nonrtc_reactivate_refuted :
+(* rtc=False: re-activation / resume find nothing queued and change nothing (repaired defect D3) *)
+Theorem C11_nonrtc_reactivate_noop :
   forall beh rm f c,
-    rm_rtc rm = false -> rm_async rm = false -> queue c = [] -> run_loop beh rm f c = Exn c XIndex.
+    rm_rtc rm = false -> rm_async rm = false -> queue c = [] -> run_loop beh rm f c = Ok c no_res.
 Proof. exact run_loop_nonrtc_empty. Qed.
-Print Assumptions C11_nonrtc_reactivate_refuted.
+Print Assumptions C11_nonrtc_reactivate_noop.
 
 (* non-vacuity: a fresh model gets the start state stored and the enter callback logged once *)
 Definition wE : wrapper :=
